@@ -446,6 +446,8 @@ class HttpParser:
             chunk_size = int(chunk_size, 16)
         except ValueError:
             raise InvalidChunkSize(chunk_size)
+        if chunk_size < 0:
+            raise InvalidChunkSize(chunk_size)
 
         if chunk_size == 0:
             if not self._parse_trailers(rest_chunk):
